@@ -375,6 +375,51 @@ fn mesh_entries(out: &mut Vec<(String, String)>) {
             }
         }
     }
+    // Mesh1D index operator, on fresh meshes and after read() replaced the nodes by fewer / more nodes from a file
+    let dir = std::path::PathBuf::from(format!("/verif/target/run/c20_mesh_{}", std::process::id()));
+    let _ = std::fs::create_dir_all(&dir);
+    for n_old in 1..=4usize {
+        for n_file in 0..=5usize {
+            // n_file == 0: no read at all (fresh mesh)
+            let file = dir.join(format!("m_{}_{}.dat", n_old, n_file));
+            if n_file > 0 {
+                let mut src = Mesh1D::<f64, f64>::new(vecf(n_file), 2);
+                for i in 0..n_file {
+                    src[i][0] = 7.0 + i as f64;
+                    src[i][1] = -1.0;
+                }
+                src.output(file.to_str().unwrap(), 6);
+            }
+            let n_now = if n_file > 0 { n_file } else { n_old };
+            let setup = || {
+                let mut m = Mesh1D::<f64, f64>::new(vecf(n_old), 2);
+                for i in 0..n_old {
+                    m[i][0] = 100.0 + i as f64;
+                }
+                if n_file > 0 {
+                    m.read(file.to_str().unwrap());
+                }
+                m
+            };
+            let key = |m: &Mesh1D<f64, f64>| format!("{:?}{:?}", m.nodes(), (0..m.nnodes()).map(|i| m.get_nodes_vars(i).vec).collect::<Vec<_>>());
+            let ar0 = if n_file > 0 { format!("{} nodes, after read() of a {}-node file", n_old, n_file) } else { format!("{} nodes (fresh)", n_old) };
+            {
+                let m = setup();
+                if m.nnodes() != n_now {
+                    out.push((format!("Mesh1D::read {}", ar0), format!("nnodes() = {} expected {}", m.nnodes(), n_now)));
+                }
+            }
+            for node in 0..=n_now.max(n_old) + 1 {
+                let ar = format!("{}, node {}", ar0, node);
+                verdict(out, "Mesh1D[node] read", ar.clone(), node >= n_now, true, probe(&setup, &key, &|m| { let _ = m[node].size(); }));
+                verdict(out, "Mesh1D[node] write", ar.clone(), node >= n_now, false, probe(&setup, &key, &|m| { m[node][0] = 5.0; }));
+                verdict(out, "Mesh1D::get_nodes_vars (after read)", ar.clone(), node >= n_now, true, probe(&setup, &key, &|m| { let _ = m.get_nodes_vars(node); }));
+                verdict(out, "Mesh1D::coord", ar.clone(), node >= n_now, true, probe(&setup, &key, &|m| { let _ = m.coord(node); }));
+            }
+            let _ = std::fs::remove_file(&file);
+        }
+    }
+    let _ = std::fs::remove_dir_all(&dir);
     for nx in 1..=3usize {
         for ny in 1..=3usize {
             let nv = 2usize;
@@ -684,6 +729,31 @@ impl Sut for Pair {
             }
         }
         self.check()
+    }
+    fn warm(&self) {
+        for o in [&self.a, &self.b] {
+            match o {
+                Obj::V(v) => {
+                    let _ = catch(|| v.dot(v));
+                }
+                Obj::M(m) => {
+                    let _ = catch(|| m.transpose());
+                }
+                Obj::B(b) => {
+                    let _ = catch(|| b.det());
+                    let _ = catch(|| b.solve(&vecr(b.size(), 0)));
+                }
+                Obj::T(t) => {
+                    let _ = catch(|| t.det());
+                    let _ = catch(|| t.solve(&vecr(t.size(), 0)));
+                }
+                Obj::P(p) => {
+                    if p.size() > 0 {
+                        let _ = catch(|| p.eval(r(2)));
+                    }
+                }
+            }
+        }
     }
     fn check(&self) -> Result<(), String> {
         ensure!(self.a.content() == self.ma, "the first value holds {:?} expected {:?} (aliasing with its clone?)", self.a.content(), self.ma);
